@@ -179,6 +179,13 @@ class Message:
                             return_type = subcls
                             break
                     break
+        else:
+            # a request parsed as its command's base class (`plain_msg=True`)
+            # is answered with the command's Answer class as well
+            for subcls in return_type.__subclasses__():
+                if subcls.__name__ == f"{cls_name}Answer":
+                    return_type = subcls
+                    break
         try:
             answer = return_type(hdr)
         except NameError:
